@@ -706,7 +706,9 @@ class SAMIParser(HTMLParser):
             self.sami += f"</{closing_tag}>"
 
     def handle_entityref(self, name):
-        if name in ['gt', 'lt']:
+        # '&', '<' and '>' must stay escaped: the string built here is
+        # parsed a second time
+        if name in ['gt', 'lt', 'amp']:
             self.sami += f'&{name};'
         else:
             try:
@@ -717,10 +719,13 @@ class SAMIParser(HTMLParser):
         self.last_element = ''
 
     def handle_charref(self, name):
-        if name[0] == 'x':
-            self.sami += chr(int(name[1:], 16))
+        if name[0] in ('x', 'X'):
+            char = chr(int(name[1:], 16))
         else:
-            self.sami += chr(int(name))
+            char = chr(int(name))
+        # '&', '<' and '>' must stay escaped: the string built here is
+        # parsed a second time
+        self.sami += escape(char)
 
     # override the parser's handling of data
     def handle_data(self, data):
